@@ -114,6 +114,7 @@ let handle (i : string list) (o : string list) =
         with Not_found -> 0) o) in
     let cur_xml = ref 0 in
     let publish_failed = ref false in
+    let hang = ref false in   (* a `q` operation (read until nothing to send at one instant) exceeded 5000 packets *)
     let post_trace = ref [] in
     let c13_events_fail = ref None in
     let xml_seq = ref [] and xml_calls = ref 0 in   (* per publish call of one step: size to use (else cur_xml) *)
@@ -169,9 +170,10 @@ let handle (i : string list) (o : string list) =
          | ["q"; now] ->
            (* read until nothing at one instant: expand into single reads *)
            let nowz = ms (int_of_string now) in
-           let seq = (if head = "q=-" then [] else if head = "q=HANG" then failwith "HANG"
+           let seq = (if head = "q=-" then [] else if head = "q=HANG" then (hang := true; [])
                       else String.split_on_char ',' (String.sub head 2 (String.length head - 2))) in
-           let impl_routs = List.map parse_desc seq @ [(RNothing, 0, None)] in
+           let impl_routs = if !hang then [] else List.map parse_desc seq @ [(RNothing, 0, None)] in
+           if !hang then diff := Some "q:reads-at-one-instant-never-reach-nothing-to-send";
            evtrace := (nowz, s0, evs) :: !evtrace;
            let cur = ref s0 in
            List.iter (fun (ir, npk, listing) ->
@@ -325,6 +327,12 @@ let handle (i : string list) (o : string list) =
           mout = OutRead RPanic
         | _ -> false
       end in
+    if !hang then begin
+      (* C12: at any fixed instant repeated reads return "nothing to send" after finitely many packets *)
+      if known_D42 dur then verdict_known "D42"
+      else if prop = "c12" then verdict_both "P_C12_quiescence" "more-than-5000-packets-at-one-instant"
+      else verdict_diff "more-than-5000-packets-at-one-instant"
+    end else
     match !diff with
     | Some d -> (match pred_fail with Some why when why <> "KNOWN:D23" && why <> "KNOWN:D27" -> verdict_both why d | _ -> verdict_diff d)
     | None ->
